@@ -28,7 +28,7 @@ DECIDED = [
 ]
 NOT_DECIDED = [
     "the FFT path of multiply() (both operands of degree >= 2): dft/idft are trusted stubs that promise only a non-empty result; nothing about the product's coefficients, degree, commutativity or the DFT/inverse-DFT identities is decided",
-    "complex coefficients (the pinned tree conjugates complex FFT products through sqrt(-1-0i) = -i; invisible here)",
+    "complex coefficients (the pinned tree conjugated complex FFT products through sqrt(-1-0i) = -i: invisible to the contracts, found by the bounded witness probe witness/src/bin/c11.rs and fixed upstream-style)",
     "rounding bound proportional to machine epsilon",
     "commutativity and agreement with pointwise multiplication of values (follow from the convolution form on the exact paths; not stated as lemmas)",
 ]
